@@ -23,4 +23,9 @@ def specStarted (before : Bool) (us : List Iter) : List String := if before then
 /-- work remained: some iteration of the schedule was left out -/
 def specRemaining (before : Bool) (us : List Iter) : List Iter := if before then us else after us
 
+/-- the status entries a scan that nobody cancels must report for its standalone extractors and detectors: one each, in
+order, failed iff the plugin returned an error (`ctx.Err()` is nil then) -/
+def specStatusNoCancel (sts dets : List Plugin) : List (String × Bool) :=
+  (sts ++ dets).map fun p => (p.name, decide (p.ret = .err))
+
 end Scalibr.Phases
